@@ -85,19 +85,8 @@ pub fn check_one(g: &G, text: &str, shell: Shell, c: &pipe::Compiled) -> Result<
     }
     // within-word automata are interned by complgen's own DFA equality: two automata it calls
     // equal must be the same automaton (same canonical form), or one silently replaces the other
-    let mut subs: Vec<(String, complgen::dfa::DFA)> = vec![];
-    for inp in &c.regex.input_from_position {
-        if let complgen::regex::RegexInput::Subword { subword_regex_id, .. } = inp {
-            let name = format!("{subword_regex_id}");
-            if subs.iter().any(|(n, _)| *n == name) {
-                continue;
-            }
-            let rx = c.pool.verif_lookup(*subword_regex_id).clone();
-            if let Ok(Ok(d)) = pipe::guarded(|| complgen::dfa::DFA::from_regex_raw(rx, &c.pool).map(|d| d.minimize())) {
-                subs.push((name, d));
-            }
-        }
-    }
+    let subs = rebuilt_subs(c);
+    hash_laws(text, shell, c, &subs)?;
     for i in 0..subs.len() {
         for j in (i + 1)..subs.len() {
             if subs[i].1 == subs[j].1 {
@@ -117,6 +106,88 @@ pub fn check_one(g: &G, text: &str, shell: Shell, c: &pipe::Compiled) -> Result<
         }
     }
     Ok(OneResult { stats: total, strict })
+}
+
+/// Everything complgen interns goes through a randomly keyed hash container, so `==` and
+/// `Hash` must agree (a == b => hash(a) == hash(b)) or interning — and with it the output —
+/// depends on the process's hash seed.  Decided with a fixed-key hasher over every pair of
+/// regex inputs, pooled within-word regexes and rebuilt within-word automata of one grammar,
+/// not by waiting for the coin.
+pub fn hash_laws(text: &str, shell: Shell, c: &pipe::Compiled, subs: &[(String, complgen::dfa::DFA)]) -> Result<(), (String, String, J)> {
+        let law_err = |ty: &str, a: String, b: String| {
+            (
+                format!("eq-hash-law-broken-{ty}"),
+                format!("two {ty} values compare equal but hash differently, so whether they are interned as one depends on the hash seed: {a} vs {b}"),
+                J::obj(vec![("grammar", J::s(text)), ("shell", J::s(pipe::shell_name(shell))), ("a", J::s(a.clone())), ("b", J::s(b.clone()))]),
+            )
+        };
+        let mut inputs: Vec<&complgen::regex::RegexInput> = c.regex.input_from_position.iter().collect();
+        let mut ids: Vec<complgen::regex::RegexId> = vec![];
+        for inp in &c.regex.input_from_position {
+            if let complgen::regex::RegexInput::Subword { subword_regex_id, .. } = inp {
+                if !ids.contains(subword_regex_id) {
+                    ids.push(*subword_regex_id);
+                }
+            }
+        }
+        let n_pool = ids.len();
+        for id in &ids {
+            inputs.extend(c.pool.verif_lookup(*id).input_from_position.iter());
+        }
+        for i in 0..inputs.len() {
+            for j in (i + 1)..inputs.len() {
+                if inputs[i] == inputs[j] && fixed_hash(inputs[i]) != fixed_hash(inputs[j]) {
+                    return Err(law_err("RegexInput", format!("{:?}", inputs[i]), format!("{:?}", inputs[j])));
+                }
+            }
+        }
+        for i in 0..n_pool {
+            for j in (i + 1)..n_pool {
+                let (a, b) = (c.pool.verif_lookup(ids[i]), c.pool.verif_lookup(ids[j]));
+                if a == b {
+                    let why = if fixed_hash(a) != fixed_hash(b) { "eq-hash-law-broken-Regex" } else { "regex-pool-holds-equal-entries" };
+                    return Err((
+                        why.into(),
+                        format!("within-word regexes {i} and {j} of the pool compare equal yet are two entries: interning them as one or two depends on the hash seed"),
+                        J::obj(vec![("grammar", J::s(text)), ("shell", J::s(pipe::shell_name(shell)))]),
+                    ));
+                }
+            }
+        }
+        for i in 0..subs.len() {
+            for j in (i + 1)..subs.len() {
+                if subs[i].1 == subs[j].1 && fixed_hash(&subs[i].1) != fixed_hash(&subs[j].1) {
+                    return Err(law_err("DFA", format!("within-word automaton {}", subs[i].0), format!("within-word automaton {}", subs[j].0)));
+                }
+            }
+        }
+    Ok(())
+}
+
+/// the within-word automata of a compiled grammar, rebuilt and minimised one by one
+pub fn rebuilt_subs(c: &pipe::Compiled) -> Vec<(String, complgen::dfa::DFA)> {
+    let mut subs: Vec<(String, complgen::dfa::DFA)> = vec![];
+    for inp in &c.regex.input_from_position {
+        if let complgen::regex::RegexInput::Subword { subword_regex_id, .. } = inp {
+            let name = format!("{subword_regex_id}");
+            if subs.iter().any(|(n, _)| *n == name) {
+                continue;
+            }
+            let rx = c.pool.verif_lookup(*subword_regex_id).clone();
+            if let Ok(Ok(d)) = pipe::guarded(|| complgen::dfa::DFA::from_regex_raw(rx, &c.pool).map(|d| d.minimize())) {
+                subs.push((name, d));
+            }
+        }
+    }
+    subs
+}
+
+fn fixed_hash<T: std::hash::Hash>(t: &T) -> u64 {
+    use std::hash::Hasher;
+    #[allow(deprecated)]
+    let mut h = std::hash::SipHasher::new_with_keys(0x1234, 0x5678);
+    t.hash(&mut h);
+    h.finish()
 }
 
 /// Violation classes (keys): what the last symbol of the distinguishing path is.
@@ -245,6 +316,7 @@ pub fn run(tier: Tier) -> Report {
             crate::fam::with_defs(km, k1, k2, &mut |g| push(g));
             crate::fam::twin_words(tier.pick(3, 4), &mut |g| push(g));
             crate::fam::nested_words(&mut |g| push(g));
+            crate::fam::redundant_twins(&mut |g| push(g));
             crate::fam::loop_segments(&["a", "b"], tier.pick(4, 4), &mut |g| push(g));
             for n in 2..=5 {
                 crate::fam::def_dags(n, &mut |g| push(g));
